@@ -361,6 +361,8 @@ def run(prog, rep):
     rep.check(any(w in prets for w in wantp), "PATH-2", "get_property_by_path = section lookup, then the own properties by name", "ok",
               "get_property_by_path returns %s" % prets, pbp.where, witness="a Property path resolves inside another Section")
 
+    exact_name_match(prog, rep, "PATH-2")
+
     # ------------------------------------------------------------------ FIND-1 / FIND-2
     rep.rule("FIND-1", "find(): one loop over <self>._sections / .sections; every returned or collected object is the loop element and every path "
                        "to it knows <self>._matches(element, key, type, ...); the collected list is what is returned at the end")
@@ -385,6 +387,25 @@ def run(prog, rep):
         rep.check(kws.get("siblings") == "False" and kws.get("parents") == "False", "FIND-2", "the recursion searches descendants only", str(kws),
                   "the recursive find_related call passes siblings=%s, parents=%s: the search leaves the requested relation" % (kws.get("siblings"), kws.get("parents")),
                   where(fr, c), witness="find_related(children=True, siblings=False, parents=False) returns the start section's sibling or itself")
+    # FIND-3: a found object is never tested for truthiness (an empty Section is falsy: BaseSection defines __len__)
+    from ..astutil import truthiness_tests
+    for fn in (fi, fr):
+        results = set()
+        for n in walk_no_nested(fn.node):
+            if isinstance(n, ast.Assign) and len(n.targets) == 1 and isinstance(n.targets[0], ast.Name) and isinstance(n.value, ast.Call) \
+                    and isinstance(n.value.func, ast.Attribute) and n.value.func.attr in ("find", "find_related", "_match_iterable"):
+                results.add(n.targets[0].id)
+        bad = []
+        for n in ast.walk(fn.node):
+            tests = [n.test] if isinstance(n, (ast.If, ast.IfExp, ast.While)) else []
+            for t0 in tests:
+                for txt, pol, e0 in truthiness_tests(t0):
+                    if isinstance(e0, ast.Name) and e0.id in results:
+                        bad.append((n, txt))
+        rep.check(not bad, "FIND-2", "%s tests found objects with `is None`" % fn.name, "no truthiness test on a search result",
+                  "%s tests the truthiness of the search result %s: an empty Section (no children, no Properties) counts as not found"
+                  % (fn.name, [t for _, t in bad]), where(fn, bad[0][0]) if bad else fn.where,
+                  witness="find_related() misses a matching Section that has neither sub-Sections nor Properties")
     rep.assume("names are unique among siblings (C04), so the first match is the only one")
     rep.extra["evaluations"] = len(rep.items)
 
@@ -519,3 +540,25 @@ def _concat_literals(f):
                         if isinstance(side, ast.Constant) and isinstance(side.value, str):
                             out.add(side.value)
     return out
+
+
+def exact_name_match(prog, rep, rule="PATH-2"):
+    """_matches compares the object's name with the key by plain equality (shared with C12: a normalising comparison lets a path
+    resolve to a sibling whose name differs only by case)."""
+    S = prog.cls("Sectionable")
+    mt = S.lookup_method("_matches")
+    if mt is None:
+        raise AnalysisError("Sectionable._matches vanished")
+    rep.saw_function(mt)
+    obj, key = mt.params[1], mt.params[2]
+    x = Expander(mt, inline=prog)
+    cmps = []
+    for n in ast.walk(mt.node):
+        if isinstance(n, ast.Compare) and len(n.ops) == 1 and isinstance(n.ops[0], (ast.Eq, ast.NotEq)):
+            sides = [x.text(n.left), x.text(n.comparators[0])]
+            if any(".name" in t0 or t0 == key or t0.startswith(key + ".") for t0 in sides) and any(obj in t0 for t0 in sides):
+                cmps.append(sides)
+    good = bool(cmps) and all(sorted(c0) == sorted(["%s.name" % obj, key]) for c0 in cmps)
+    rep.check(good, rule, "_matches compares the name with the key as it is", str(cmps),
+              "_matches compares %s: a name that differs from the key (e.g. by case) is accepted" % cmps, mt.where,
+              witness="sibling Sections 'Probe' and 'probe': the path of the second resolves to the first")
